@@ -16,6 +16,6 @@ git -C $wt checkout -q -- .
 echo "$pid $x->$y demo clean rc=$rc_clean mutated rc=$rc_mut tests rc=$tests_rc"
 if [ $rc_clean -eq 0 ] && [ $rc_mut -ne 0 ]; then
   mkdir -p $dst; cp $out/patch$x.diff $dst/patch.diff; cp $out/demo$x.py $dst/demo.py; cp $out/notes$x.md $dst/notes.md
-  echo "{\"rc_clean\": $rc_clean, \"rc_mutated\": $rc_mut, \"tests\": \"$*\", \"tests_rc\": \"$tests_rc\", \"round\": 4}" > $dst/confirm.json
+  echo "{\"rc_clean\": $rc_clean, \"rc_mutated\": $rc_mut, \"tests\": \"$*\", \"tests_rc\": \"$tests_rc\", \"round\": ${ROUND:-4}}" > $dst/confirm.json
   echo kept
 fi
